@@ -45,15 +45,37 @@ def c20_case(draw, tier):
     case["result"] = var
     # an expression over the source table for ColExpr.export
     src_var = case["steps"][0]["out"]
+    mode = draw(st.sampled_from(["plain", "plain", "ftype", "grouped", "grouped"]))
+    if mode == "grouped":
+        # the expression is taken from a grouped table: aggregates / window functions are evaluated per group
+        keys = [n for n, c in g.t(src_var).visible if n != "id"]
+        gv = g.emit({"out": g.new_var(), "verb": "group_by", "in": src_var,
+                     "cols": [{"v": src_var, "n": draw(st.sampled_from(keys))}], "add": False}) if keys else None
+        if gv is None:
+            mode = "ftype"
+        else:
+            src_var = gv
     sc = Scope(g.env, g.t(src_var), captures=True, c_refs=False, only_vars=[src_var])
     eg = ExprGen(draw, sc, Cfg(max_depth=2))
     fam = draw(st.sampled_from(["int", "float", "bool", "str"]))
-    e = eg.gen(fam, 2)
+    e = None
+    if mode != "plain":
+        e = eg.aggregate(fam, 1) if draw(st.booleans()) else eg.window(fam, 1)
+        if e is not None:
+            from ..exprgen import evaluate
+            from ..refsem import OutOfDomain, RefReject
+
+            try:
+                evaluate(g.env, g.t(src_var), e, "mutate")
+            except (OutOfDomain, RefReject):
+                e = None
+    if e is None:
+        e = eg.gen(fam, 2)
     from ..ir import walk_expr
 
     if not any(nd[0] == "col" for nd in walk_expr(e)):
         e = ["col", {"v": src_var, "n": "id"}]
-    case["expr"] = {"var": src_var, "expr": e}
+    case["expr"] = {"var": src_var, "expr": e, "mode": mode}
     case["_gen"] = {"skipped": g.skipped, "gen_rejects": g.gen_rejects, "classes": sorted(g.classes | {"shape:" + shape}),
                     "excluded": g.excluded}
     return case
@@ -70,7 +92,8 @@ def same(a, b):
 class C20(Check):
     ID = "C20"
     RULE = ("Hypothesis composite strategy: generated pipelines (biased towards one-row, one-cell and empty results) on "
-            "Polars-backed and SQLite-backed tables plus a generated expression over the source table. Oracle: "
+            "Polars-backed and SQLite-backed tables plus a generated expression (element-wise, aggregate or window function) "
+            "over the source table or a grouped view of it. Oracle: "
             "Polars(lazy=True).collect() equals Polars(); Pandas, DictOfLists, ListOfDicts and - for one-row / one-cell "
             "results - Dict / Scalar carry the same names, order and values (null <-> None/NA), wrong shapes raise TypeError; "
             "expr.export(Polars()) equals the column produced by mutate(c=expr); Table(exported) re-exports the same frame "
@@ -155,6 +178,15 @@ class C20(Check):
             try:
                 pdf = tbl >> pdt.export(pdt.Pandas())
                 check("Pandas", list(pdf.columns), [tuple(_py(v) for v in r) for r in pdf.itertuples(index=False, name=None)])
+                # a null must stay a null (not NaN in a float column that was an integer / boolean column), i.e. a Table
+                # made from the exported pandas frame has the column types of the Polars() export again
+                back = pdt.Table(pdf) >> pdt.export(pdt.Polars())
+                want = {n: oracle.dtype_family(t) for n, t in df.schema.items()}
+                got = {n: oracle.dtype_family(t) for n, t in back.schema.items()}
+                if want != got and df.width > 0:
+                    diff = {n: (want[n], got.get(n)) for n in want if want[n] != got.get(n)}
+                    out.fail("roundtrip", f"{kind}:Table(pandas)", f"{kind}: Table(Pandas export) has other column types than Polars(): {diff}")
+                compared += 1
             except NotImplementedError:
                 out.count("pandas_not_implemented:" + kind)
             except BaseException as ex:  # noqa: BLE001
@@ -215,6 +247,11 @@ class C20(Check):
                 except BaseException as ex:  # noqa: BLE001
                     reraise_control(ex)
                     if is_refusal(ex) or engine_quirk(ex, run.case2, run.ref):
+                        continue
+                    from ..ir import walk_expr
+
+                    if exc_name(ex) == "ValueError" and not any(nd[0] == "col" for nd in walk_expr(ex_["expr"])):
+                        out.count("colexpr_export_without_column_refused")  # no table to evaluate it on
                         continue
                     out.fail("internal-error", f"{kind}:ColExpr.export:{exc_name(ex)}", f"{kind}: ColExpr.export raised {exc_name(ex)}: {str(ex)[:200]}")
         out.nontrivial = nt
